@@ -370,6 +370,20 @@ def corner_graze_pair(rng):
     return A, B, {'kinds': ['rect', 'circle'] if A is rect else ['circle', 'rect'], 'config': 'transversal-corner-graze'}
 
 
+def node_crossing_pair(rng):
+    """a rectangle one of whose sides runs through the CENTRE of a circle / ellipse, parallel to an axis: the outlines cross transversally exactly at two
+    on-curve nodes of the round shape (its east/west or north/south points), i.e. at parameter 0 / 1 of its segments"""
+    R = float(rng.randint(20, 100)) if rng.random() < 0.6 else rng.uniform(20, 100)
+    c = P(float(rng.randint(-60, 60)), float(rng.randint(-60, 60))) if rng.random() < 0.6 else P(rng.uniform(-60, 60), rng.uniform(-60, 60))
+    rnd = cg.Circle(R, origin=c) if rng.random() < 0.6 else cg.Ellipse(R, R * rng.uniform(0.5, 1.0), origin=c)
+    w, h = rng.uniform(2.5, 4) * R, rng.uniform(0.6, 1.6) * R
+    side = rng.choice(['top', 'bottom', 'left', 'right'])
+    if side in ('top', 'bottom'): rect = cg.Rectangle(w, h, origin=P(c.x + rng.uniform(-0.3, 0.3) * R, c.y - h / 2 if side == 'top' else c.y + h / 2))
+    else: rect = cg.Rectangle(h, w, origin=P(c.x - h / 2 if side == 'right' else c.x + h / 2, c.y + rng.uniform(-0.3, 0.3) * R))
+    A, B = (rect, rnd) if rng.random() < 0.5 else (rnd, rect)
+    return A, B, {'kinds': ['rect', 'circle'] if A is rect else ['circle', 'rect'], 'config': 'transversal-at-nodes'}
+
+
 def curved_special_pair(rng):
     """two curved shapes in special positions: (a) a node of one of them EXACTLY at the origin (a circle of radius R centred at (+-R, 0) or (0, +-R)) with the
     partner crossing the segments next to that node; (b) a small circle / ellipse centred near the middle of one quadrant of a big circle, so that the same
@@ -565,6 +579,7 @@ def search(ctx):
     for i in range(ctx.n(8, 150)): pairs2.append(thin_rect_pair(rng))
     for i in range(ctx.n(8, 150)): pairs2.append(corner_graze_pair(rng))
     for i in range(ctx.n(8, 150)): pairs2.append(curved_special_pair(rng))
+    for i in range(ctx.n(6, 100)): pairs2.append(node_crossing_pair(rng))
     for A, B, m in pairs2:
         seed2 = rng.randrange(1 << 30)
         f, meas = check_region_sentence(A, B, m, seed2)
